@@ -346,6 +346,7 @@ def evaluate(ctx, case, kernels=True):
         for t in row:
             if t:
                 res["triggers"][t] = res["triggers"].get(t, 0) + 1
+    res["sign_tie_pixels"] = sum(1 for row in model.get("sign_tie", []) for t in row if t)
     return res
 
 
@@ -384,6 +385,8 @@ def record(report, case, res, label):
         report.count("situation:" + t, n)
     if res["ties"]:
         report.count("sgm_argsort_sign_ties_compared_on_abs", res["ties"])
+    if res.get("sign_tie_pixels"):
+        report.count("sgm_pixels_with_sign_tie_of_abs(compared_exactly)", res["sign_tie_pixels"])
     if res.get("variant"):
         report.count("implementation_matches_repaired_model:" + res["variant"])
         note = ("the implementation agrees with the repaired variant '%s' of the model (Model/InterpRepaired.lean, "
